@@ -13,7 +13,7 @@
           history: control files rewritten, with or without HUP, more messages injected
   verdict TLC evaluates MsgVerdict / VerpFirstBad on every message (spec/RewriteRec.tla)
 """
-import sys, os, json, argparse, subprocess, itertools, threading, time
+import sys, os, re, json, argparse, subprocess, itertools, threading, time
 sys.path.insert(0, os.path.join(os.path.dirname(os.path.abspath(__file__)), "..", "lib"))
 from vlib import *
 import sandbox, sessions, c10_util
@@ -34,6 +34,9 @@ def casevar(rng, s):
 def near(d):
     first, _, rest = d.partition(".")
     return [d.upper(), d.title(), "z." + d, rest, d + ".", "." + d, "z" + d, d[:-1], d + "x"]
+
+
+FILLER = re.compile(r"(fill|w)\d+\.test")
 
 
 def keyset(items):
@@ -89,8 +92,8 @@ def cfg_names(cfg):
         d = k.lower().rsplit("@", 1)[-1]
         if d:
             n.add(d.lstrip("."))
-    return {x for x in n if not x.startswith("fill") and not x.startswith("w")} | \
-           {x for x in n if x.startswith("fill") and x in ("fill0.test", "fill7.test")}
+    # of the filler names two are enough to build addresses from
+    return {x for x in n if not FILLER.fullmatch(x) or x in ("fill0.test", "fill7.test")}
 
 
 # ---- addresses ------------------------------------------------------------------------------------
@@ -179,8 +182,8 @@ def short_cfg(c):
                                               j(c["ph"][:8] if c["ph"] else c["ph"]), "-" if c["env"] is None else c["env"])
 
 
-def text(codes_):
-    return bytes(codes_).decode("latin-1")
+def text(s):
+    return s
 
 
 def main():
@@ -191,7 +194,7 @@ def main():
     ck = Check("C10", a.tier)
     thorough = a.tier == "thorough"
     rng = ck.rng
-    nworkers = min(12, NCPU) if thorough else min(8, NCPU)
+    nworkers = 1 if a.replay else (min(12, NCPU) if thorough else min(8, NCPU))
 
     # ---- 1. the model (runs while the real programs are being driven) -----------------------------
     cfg = ck.scratch.path("RewriteSend.cfg")
@@ -227,27 +230,41 @@ def main():
     tree = build_tree(ck.scratch, split=3)
     ids = sandbox.write_ids(ck.scratch.path("ids"), tree.root)
     trees = [tree] + sessions.pmap(lambda i: c10_util.clone_tree(tree, "w%d" % i, ck.scratch), range(1, nworkers))
-
+    try:
+        seam = c10_util.build_seam(tree)
+    except Infra as e:
+        log("C10: function-level seam unavailable (%s); binary level only" % str(e).strip()[-300:])
+        seam = None
     log("C10: %d sandboxes built in %.0fs" % (nworkers, time.time() - t0))
+
+    def later_phases(fam, always):
+        later = []
+        if always or rng.random() < 0.55:
+            c1 = rand_cfg(rng) if rng.random() < 0.7 else rng.choice(fam)
+            later.append((rng.choice(["hup", "hup", "edit"]), c1))
+            if later[0][0] == "edit" or rng.random() < 0.3:
+                later.append(("hup", c1 if later[0][0] == "edit" and rng.random() < 0.5 else rand_cfg(rng)))
+        return later
+
+    seam_cases = []
     if a.replay:
         cases = [json.load(open(a.replay))["case"]]
     else:
-        cases = []
         fam = enum_cfgs()
+        nfam = len(fam)
         if not thorough:
             fam = rng.sample(fam, 260)
-        nrand = 2600 if thorough else 340
+        nrand = 1200 if thorough else 340
         nextra = 260 if thorough else 150
         allc = [(c, False) for c in fam] + [(rand_cfg(rng, fill=(rng.choice([70, 130, 300]) if i % 9 == 0 else 0)), True) for i in range(nrand)]
-        for cid, (c0, israndom) in enumerate(allc):
-            later = []
-            r = rng.random()
-            if r < 0.55 or israndom:
-                c1 = rand_cfg(rng) if rng.random() < 0.7 else rng.choice(fam)
-                later.append((rng.choice(["hup", "hup", "edit"]), c1))
-                if later[0][0] == "edit" or rng.random() < 0.3:
-                    later.append(("hup", c1 if later[0][0] == "edit" and rng.random() < 0.5 else rand_cfg(rng)))
-            cases.append(make_case(rng, cid, c0, nextra, later))
+        cases = [make_case(rng, cid, c0, nextra, later_phases(fam, israndom)) for cid, (c0, israndom) in enumerate(allc)]
+        # more of the same kind through the function-level seam (or, without it, a part of them through the binaries)
+        nseam = 3000 if thorough else 200
+        seam_cases = [make_case(rng, 100000 + i, rand_cfg(rng, fill=(rng.choice([70, 200, 500]) if i % 7 == 0 else 0)), nextra, later_phases(fam, True))
+                      for i in range(nseam)]
+        if seam is None:
+            cases += seam_cases[:nseam // 4]
+            seam_cases = []
 
     jobs = []
     per = [cases[i::nworkers] for i in range(nworkers)]
@@ -258,89 +275,120 @@ def main():
         jobs.append(jf)
     util = os.path.join(VERIF, "lib", "c10_util.py")
     procs = [subprocess.Popen([sys.executable, util, jf], stdout=subprocess.PIPE, stderr=subprocess.STDOUT) for jf in jobs]
+
+    srecs = []
+    if seam_cases:
+        def one(ic):
+            i, case = ic
+            return c10_util.seam_case(seam, ck.scratch.path("seam", "d%d" % (i % 64)), case)
+        os.makedirs(ck.scratch.path("seam"), exist_ok=True)
+        locks = [threading.Lock() for _ in range(64)]
+
+        def guarded(ic):
+            with locks[ic[0] % 64]:
+                return one(ic)
+        try:
+            for rl in sessions.pmap(guarded, list(enumerate(seam_cases)), workers=max(2, NCPU // 4)):
+                srecs += rl
+        except (RuntimeError, subprocess.TimeoutExpired) as e:
+            raise Infra("seam harness: %s" % e)
+
     for p in procs:
         out, _ = p.communicate()
         if p.returncode != 0:
             raise Infra("worker failed (%s):\n%s" % (p.returncode, out.decode(errors="replace")[-3000:]))
+    log("C10: %d cases run with the binaries, %d through the seam, at %.0fs" % (len(cases), len(seam_cases), time.time() - t0))
 
-    log("C10: %d cases run at %.0fs" % (len(cases), time.time() - t0))
-    recs, errors = [], []
+    recs, errors, skipped = [], [], 0
     for i in range(nworkers):
         with open(ck.scratch.path("out%d.ndjson" % i)) as f:
             for line in f:
                 r = json.loads(line)
-                (errors if "error" in r else recs).append(r)
+                if "skipped" in r:
+                    skipped += 1
+                else:
+                    (errors if "error" in r else recs).append(r)
     if errors:
         raise Infra("%d cases could not be run, e.g. case %s: %s" % (len(errors), errors[0]["case"], errors[0]["error"]))
-    bycase = {c["id"]: c for c in cases}
-    if len(recs) != sum(len(ph["msgs"]) for c in cases for ph in c["phases"]):
+    bycase = {c["id"]: c for c in cases + seam_cases}
+    if not skipped and len(recs) != sum(len(ph["msgs"]) for c in cases for ph in c["phases"]):
         raise Infra("records missing: %d" % len(recs))
     recs.sort(key=lambda r: (r["case"], r["ph"], r["mi"]))
+    nbin = len(recs)
+    recs += srecs
 
     # ---- 3. verdict by TLC ----------------------------------------------------------------------
     # (several TLC processes with one worker each: TLC parses the record file once per worker)
-    nparts = min(8, max(1, len(recs) // 40))
-    bounds = [len(recs) * i // nparts for i in range(nparts + 1)]
+    nparts = min(max(8, NCPU - 4) if thorough else 8, max(1, len(recs) // 40))
+    order = list(range(len(recs)))
+    parts = [order[i::nparts] for i in range(nparts)]          # interleaved: the parts cost about the same
 
     def validate(i):
         time.sleep(0.05 * i)              # distinct TLC metadirs
-        part = recs[bounds[i]:bounds[i + 1]]
         recfile = ck.scratch.path("c10.%d.ndjson" % i)
-        write_ndjson(recfile, [{"hist": r["hist"], "snd": r["snd"], "rc": r["rc"], "lo": r["lo"], "re": r["re"],
-                                "dl": [{"s": d["s"], "r": d["r"]} for d in r["dl"]]} for r in part])
-        b, vres = tlc_validate_records("RewriteRec", "RewriteRec.cfg", recfile, len(part), chunk=20, workers=1, timeout=2400, heap="3g")
-        return [(idx + bounds[i], why) for idx, why in b], vres
+        with open(recfile, "w") as f:
+            for j in parts[i]:
+                f.write(json.dumps(c10_util.tlc_record(recs[j], bycase[recs[j]["case"]]), separators=(",", ":")) + "\n")
+        b, vres = tlc_validate_records("RewriteRec", "RewriteRec.cfg", recfile, len(parts[i]), chunk=20, workers=1, timeout=2400, heap="3g")
+        return [(parts[i][idx - 1] + 1, why) for idx, why in b], vres
     bad = []
     for n, (b, vres) in enumerate(sessions.pmap(validate, range(nparts), workers=nparts)):
         bad += b
         ck.add_tlc("RewriteRec[%d]" % n, vres)
+    bad.sort()
     ck.cov["traces_validated_against_impl"] = len(recs)
     log("C10: %d messages validated at %.0fs" % (len(recs), time.time() - t0))
     finish_model()
     log("C10: model finished at %.0fs (TLC wall %.0fs)" % (time.time() - t0, model["res"].wall))
 
     # ---- 4. evidence ----------------------------------------------------------------------------
-    nhup = nedit = ndl = nverp = nloc = nrew = 0
+    nhup = nedit = ndl = nverp = nloc = nrew = nincomplete = 0
     for r in recs:
         case = bycase[r["case"]]
         names = set()
         for ph in case["phases"][:r["ph"] + 1]:
             names |= cfg_names(ph["cfg"])
-        ckey = json.dumps([[h["k"], short_cfg(case["phases"][n]["cfg"])] for n, h in enumerate(r["hist"])])
+        ckey = json.dumps([[ph["k"], short_cfg(ph["cfg"])] for ph in case["phases"][:r["ph"] + 1]])
         for rc in r["rc"]:
             ad = text(rc)
             ck.count((ckey, ad), nontrivial=related(ad, names))
-        ks = [h["k"] for h in r["hist"]]
-        nhup += ks[-1] == "hup"
-        nedit += ks[-1] == "edit"
+        lastk = case["phases"][r["ph"]]["k"]
+        nhup += lastk == "hup"
+        nedit += lastk == "edit"
         ndl += len(r["dl"])
-        nverp += sum(1 for d in r["dl"] if d["s"] != r["snd"])
+        nverp += sum(1 for d in r["dl"] if d[1] != r["snd"])
         nloc += len(r["lo"])
-        nrew += sum(1 for x in r["lo"] + r["re"] if x not in r["rc"])
-    for r in recs[:3] + recs[len(recs) // 2:len(recs) // 2 + 2] + recs[-1:]:
+        inset = set(r["rc"])
+        nrew += sum(1 for x in r["lo"] + r["re"] if x not in inset)
+        nincomplete += not r["ok"]
+    for r in recs[:2] + recs[nbin // 2:nbin // 2 + 2] + recs[nbin - 1:nbin] + recs[-1:]:
         c = bycase[r["case"]]
-        ck.sample({"history": [[ph["k"], short_cfg(ph["cfg"])] for ph in c["phases"][:r["ph"] + 1]], "sender": text(r["snd"]),
+        ck.sample({"level": "seam" if r.get("seam") else "binaries",
+                   "history": [[ph["k"], short_cfg(ph["cfg"])] for ph in c["phases"][:r["ph"] + 1]], "sender": text(r["snd"]),
                    "recipients": [text(x) for x in r["rc"][:6]], "local": [text(x) for x in r["lo"][:6]],
                    "remote": [text(x) for x in r["re"][:6]],
-                   "deliveries": [[d["ch"], text(d["s"]), text(d["r"])] for d in r["dl"][:4]]})
-    ck.cov.update({"cases": len(cases), "messages": len(recs), "messages_after_hup": nhup, "messages_after_edit_without_hup": nedit,
-                   "delivery_commands": ndl, "verp_expanded_senders": nverp, "recipients_local": nloc, "recipients_rewritten": nrew})
-    ck.cov["rule"] = ("configurations: %s of the 1380-member enumerated family (5 locals/me x 46 sets of <= 2 of 9 virtualdomains entry kinds x 3 percenthack "
-                      "x 2 envnoathost) + seeded random ones (every 9th with 70-300 filler lines); per configuration every address u|U|''@d for d in the configured "
+                   "deliveries": r["dl"][:4]})
+    ck.cov.update({"cases_binary_level": len(cases), "cases_seam": len(seam_cases), "seam_available": seam is not None,
+                   "messages": len(recs), "messages_binary_level": nbin, "messages_after_hup": nhup,
+                   "messages_after_edit_without_hup": nedit, "delivery_commands": ndl, "verp_expanded_senders": nverp,
+                   "recipients_local": nloc, "recipients_rewritten": nrew, "messages_not_completely_observed": nincomplete,
+                   "cases_skipped_after_repeated_timeouts": skipped})
+    ck.cov["rule"] = ("configurations: %s of the %d-member enumerated family (5 locals/me x 46 sets of <= 2 of 9 virtualdomains entry kinds x 3 percenthack "
+                      "x 2 envnoathost) + seeded random ones (some with 70-500 filler lines); per configuration every address u|U|''@d for d in the configured "
                       "names and 9 near misses of each, virtual-user near misses, no-@ / trailing-@ / %% / several-@ forms, + %d random compound forms; "
-                      "all recipients of a case go through the real qmail-queue and qmail-send in messages of %d; 1-2 later phases (control files rewritten, with or "
-                      "without HUP) re-inject a sample; an evaluation = one recipient preprocessed by the real qmail-send; non-trivial = its domain meets a "
-                      "configured name (same last two labels), or it has no @, several @, or a %%; distinct by (history of configurations, address)"
-                      % ("all" if thorough else "260", 260 if thorough else 150, CHUNK))
+                      "all recipients of a case go through the real qmail-queue and qmail-send in messages of %d (binary level) or through getcontrols/"
+                      "rewrite/senderadd (seam); 1-2 later phases (control files rewritten, with or without HUP) re-inject a sample; an evaluation = one "
+                      "recipient preprocessed by the real code; non-trivial = its domain meets a configured name (same last two labels), or it has no @, "
+                      "several @, or a %%; distinct by (history of configurations, address)" % ("all" if thorough else "260", 1380, 260 if thorough else 150, CHUNK))
     ck.cov["exhaustive"] = False
     ck.assumptions += ["control files with a key listed twice (ignoring case) are not generated (outside the property's domain)",
                        "the shim serves the qmail account names to qmail-queue only; qmail-send and qmail-clean run unmodified and unshimmed",
                        "a HUP counts as handled when the signal is no longer pending and qmail-send sleeps again (/proc/<pid>/status)",
                        "percent hack on an address whose part between the last % and the final @ contains an @: every reading accepted (Rewrite.tla PctResults)",
-                       "VERP: 'deliveries to recip@domain' is read as the recipient field of the same delivery command"]
+                       "VERP: 'deliveries to recip@domain' is read as the recipient field of the same delivery command",
+                       "control-file syntax exercised: comment lines, trailing spaces and tabs (qmail-control(5)); nothing else"]
 
     # ---- 5. violations --------------------------------------------------------------------------
-    import re as _re
     best = {}
     for idx, why in bad:
         r = recs[idx - 1]
@@ -352,36 +400,38 @@ def main():
         phs = case["phases"][:r["ph"] + 1]
         if clause == "Route":
             wit = text(r["rc"][int(pos) - 1])
+            what = "recipient #%s %r of the envelope is not in the list / not in the form the control files call for" % (pos, wit)
         elif clause == "Verp":
             d = r["dl"][int(pos) - 1]
-            wit = "%s>%s" % (text(r["snd"]), text(d["r"]))
+            wit = "%s>%s" % (r["snd"], d[2])
+            what = "delivery to %r of a message from %r carries the sender %r" % (d[2], r["snd"], d[1])
         else:
             wit = "n=%d" % len(r["rc"])
+            what = "%d recipients in the envelope, %d in local/ + %d in remote/" % (len(r["rc"]), len(r["lo"]), len(r["re"]))
         hist = "/".join("%s[%s]" % (ph["k"], short_cfg(ph["cfg"])) for ph in phs)
-        key = _re.sub(r"\s", "_", "%s:%s:in=%s" % (clause, hist, wit))
+        key = re.sub(r"\s", "_", "%s:%s:in=%s" % (clause, hist, wit))
         size = (len(phs), sum(len(short_cfg(ph["cfg"])) for ph in phs), len(wit))
-        if not r["ok"]:
-            key += ":incomplete"
-        best.setdefault(clause, []).append((size, key, r, wit, why))
-    nreported = 0
+        best.setdefault(clause, []).append((size, key, r, wit, what))
+    if skipped and not bad:
+        raise Infra("%d cases skipped after repeated timeouts, but no violation seen" % skipped)
     for clause, lst in sorted(best.items()):
         lst.sort(key=lambda x: x[0])
         seen = set()
-        for size, key, r, wit, why in lst:
+        for size, key, r, wit, what in lst:
             if wit in seen or len(seen) >= 4:
                 continue
             seen.add(wit)
-            if any(_re.fullmatch(p, key) for p in PENDING_FINDINGS):
+            if any(re.fullmatch(p, key) for p in PENDING_FINDINGS):
                 print("PENDING-FINDING property=C10 %s" % key)
                 continue
             case = bycase[r["case"]]
             rcase = {"id": 0, "phases": [{"k": ph["k"], "cfg": ph["cfg"], "msgs": ([ph["msgs"][r["mi"]]] if n == r["ph"] else [])}
                                          for n, ph in enumerate(case["phases"][:r["ph"] + 1])]}
-            desc = "%s: sender %r, recipients %s -> local %s, remote %s, deliveries %s%s" % (
-                why, text(r["snd"]), [text(x) for x in r["rc"]][:8], [text(x) for x in r["lo"]][:8], [text(x) for x in r["re"]][:8],
-                [(d["ch"], text(d["s"]), text(d["r"])) for d in r["dl"]][:4], "" if r["ok"] else " (not completely preprocessed in time)")
+            desc = "%s; %s; envelope %s -> local %s, remote %s%s%s" % (
+                what, "/".join("%s[%s]" % (ph["k"], short_cfg(ph["cfg"])) for ph in case["phases"][:r["ph"] + 1]),
+                [text(x) for x in r["rc"]][:6], [text(x) for x in r["lo"]][:6], [text(x) for x in r["re"]][:6],
+                " (function-level seam)" if r.get("seam") else "", "" if r["ok"] else " (not completely preprocessed in time)")
             ck.violation(key, desc, rcase)
-            nreported += 1
     ck.finish()
 
 
